@@ -41,6 +41,10 @@ fn doc_sets(tier: Tier) -> Vec<Vec<(&'static str, DocForm)>> {
         // first character is whitespace but not a space: only a SPACE is stripped
         vec![("\tx", Attr)],
         vec![("\u{a0}y", Attr), (" z", Comment)],
+        // no leading space, but a space LATER in the line: only a leading one is removed
+        vec![("Written as is", Attr)],
+        vec![("Tight comment", Comment), (" then a b", Comment)],
+        vec![(" two  inner  spaces ", Comment)],
         // doc attributes that are not documentation text, before / between / after the comments
         vec![("hidden", Marker), (" a", Comment), (" b", Comment)],
         vec![(" a", Comment), ("alias = \"x\"", Marker), (" b", Comment)],
